@@ -84,8 +84,10 @@ def replayable_per_statement(f):
 
 
 class Exec:
-    def __init__(self, plan, susp, pol, eager=True):
-        self.plan, self.susp, self.pol, self.eager = plan, susp, pol, eager
+    def __init__(self, plan, susp, pol, eager=True, conc="1"):
+        """conc: client_replay_concurrency stays 1 ("1"); starts at 1 and the user may switch it -1 <-> 1 ("1t"); the
+        playback task starts (idle) with -1, by default the user switches to 1 and then submits, or in any other order ("-1")"""
+        self.plan, self.susp, self.pol, self.eager, self.conc = plan, susp, pol, eager, conc
 
     def run(self, prefix, t: Tally, verbose=False):
         first, second, fl = build_flows(self.plan)
@@ -114,9 +116,11 @@ class Exec:
         pre = {}  # name -> state snapshot right before submission
         stopped = []  # names removed by stop_replay
         stop_checks = []
-        st = {"second_pending": second is not None, "stops": 0, "answered": {}, "part": {}, "max_inflight": 0, "max_sockets": 0, "never_queued_ok": True, "queue_obs": []}
+        strict = set()  # flows submitted while the option was 1 and it has been 1 ever since: these are replayed one at a time
+        st = {"opt": -1 if self.conc == "-1" else 1, "toggles": 0, "first_pending": self.conc == "-1", "ever_minus1": self.conc == "-1",
+              "second_pending": second is not None, "stops": 0, "answered": {}, "part": {}, "max_inflight": 0, "max_sockets": 0, "never_queued_ok": True, "queue_obs": []}
         feats0 = {"plan": self.plan}
-        case = {"plan": self.plan, "susp": self.susp, "pol": self.pol, "eager": self.eager, "choices": None}
+        case = {"plan": self.plan, "susp": self.susp, "pol": self.pol, "eager": self.eager, "conc": self.conc, "choices": None}
 
         def choose(n):
             i = prefix[len(choices)] if len(choices) < len(prefix) else 0
@@ -150,6 +154,8 @@ class Exec:
                     pre[name_of[id(f)]] = f.get_state()
             rw.start_replay(batch)
             Q.extend(ok)
+            if st["opt"] == 1:
+                strict.update(ok)
             # unreplayable flows never enter the queue
             queued_names = [name_of.get(id(f), "?") for f in rw.queued()]
             for f in batch:
@@ -174,12 +180,27 @@ class Exec:
             st["max_inflight"] = max(st["max_inflight"], len(inflight))
             socks = sum(1 for e in rw.servers if (e.state == "pending" and e in rw.pending_connects()) or (e.state == "open" and not e.w.closed))
             st["max_sockets"] = max(st["max_sockets"], socks)
-            t.judge("one_at_a_time", len(inflight) <= 1, feats0, dict(case, choices=list(choices)), "at most one replay in progress", inflight)
-            t.judge("one_at_a_time_sockets", socks <= 1, feats0, dict(case, choices=list(choices)), "at most one origin connection alive", socks)
+            # the statement binds replays made with client_replay_concurrency 1: flows submitted while the option was 1
+            # (and it has not been -1 since) must never be in progress together
+            bound = [n for n in inflight if n in strict]
+            t.judge("one_at_a_time", len(bound) <= 1, dict(feats0, option_changed=self.conc != "1"), dict(case, choices=list(choices)),
+                    "at most one replay (submitted under client_replay_concurrency=1) in progress", {"in_progress": inflight, "submitted_under_1": sorted(strict)})
+            if not st["ever_minus1"]:
+                t.judge("one_at_a_time_sockets", socks <= 1, feats0, dict(case, choices=list(choices)), "at most one origin connection alive", socks)
+
+        def set_option(v):
+            st["opt"] = v
+            if v == -1:
+                st["ever_minus1"] = True
+                strict.clear()
+            rw.act(lambda: rw.options.update(client_replay_concurrency=v))
 
         try:
+            if self.conc == "-1":
+                rw.act(lambda: rw.options.update(client_replay_concurrency=-1))
             rw.start_playback()
-            submit(first)
+            if not st["first_pending"]:
+                submit(first)
             observe()
             for _ in range(80):
                 pend = rw.pending_connects()
@@ -187,6 +208,10 @@ class Exec:
                 waiting = [f for f in icpt if f.intercepted]
                 # progress actions in default priority; the first one is the default, the others are alternatives
                 cands = []
+                if st["first_pending"]:
+                    if st["opt"] == -1 and st["toggles"] == 0:
+                        cands.append(("conc",))  # the user switches to 1 while the playback task idles on the empty queue
+                    cands.append(("start1",))
                 if rw.suspended:
                     cands.append(("hook",))
                 if waiting:
@@ -210,6 +235,8 @@ class Exec:
                     acts.append(("eof",))
                 if st["stops"] < 1:
                     acts.append(("stop",))
+                if self.conc != "1" and st["toggles"] < 2 and ("conc",) not in cands:
+                    acts.append(("conc",))  # the user changes client_replay_concurrency (-1 <-> 1)
                 acts.extend(cands[1:])
                 a = acts[choose(len(acts))] if len(acts) > 1 else acts[0]
                 trace.append(a[0])
@@ -238,6 +265,12 @@ class Exec:
                 elif k == "start2":
                     st["second_pending"] = False
                     submit(second)
+                elif k == "start1":
+                    st["first_pending"] = False
+                    submit(first)
+                elif k == "conc":
+                    st["toggles"] += 1
+                    set_option(-st["opt"])
                 elif k == "stop":
                     st["stops"] += 1
                     still = [n for n in Q if n not in started() and n not in stopped]
@@ -363,6 +396,13 @@ def specs(tier):
         if tier == "thorough" or plan == "abc":
             out.append((plan, "none", "none", False))
             out.append((plan, "response", "none", False))
+        if plan in ("abc", "two-calls"):
+            # the user changes client_replay_concurrency between -1 and 1, also while the playback task is idle
+            for conc in ("-1", "1t"):
+                if tier == "thorough" or plan == "abc" or conc == "-1":
+                    out.append((plan, "none", "none", True, conc))
+                if tier == "thorough":
+                    out.append((plan, "response", "none", True, conc))
     return out
 
 
@@ -374,10 +414,10 @@ def run(ctx):
     bound = ctx.pick(2, 3)
     sp = specs(ctx.tier)
     ctx.bounds = {"plans": PLANS, "suspended_hook": SUSPEND, "policies": POLICIES, "deviation_bound": bound, "specs": len(sp),
-                  "actions": ["hook", "connect ok", "connect refused", "response whole", "response in 2 parts", "origin EOF", "stop (once)", "second replay.client call", "resume intercepted replay"]}
+                  "actions": ["hook", "connect ok", "connect refused", "response whole", "response in 2 parts", "origin EOF", "stop (once)", "second replay.client call", "resume intercepted replay", "set client_replay_concurrency -1 <-> 1 (<= 2 times, also while idle)"]}
     ctx.log("%d specs, deviation bound %d" % (len(sp), bound))
     mbfs.dfs_dev_many(sp, make_exec, bound, ctx.tally, log=ctx.log)
 
 
 def replay(case, t, verbose=False):
-    Exec(case["plan"], case["susp"], case["pol"], bool(case["eager"])).run(tuple(case["choices"]), t, verbose=verbose)
+    Exec(case["plan"], case["susp"], case["pol"], bool(case["eager"]), case.get("conc", "1")).run(tuple(case["choices"]), t, verbose=verbose)
